@@ -291,16 +291,21 @@ def cut(src, spec):
 from .segspecs import SEGMENTS  # noqa: E402
 
 
-def generate(scratch, hdir):
-    """Write verif_harness/segs_<module>.rs for every module; returns per-segment info."""
+def generate(scratch, hdir, disabled=None):
+    """Write verif_harness/segs_<module>.rs for every module; returns per-segment info.
+    `disabled`: {segment name: reason} - segments whose cut text did not compile on this tree
+    are replaced by a placeholder so that the other segments stay checkable."""
     info = {}
     out = {}
+    disabled = disabled or {}
     for spec in SEGMENTS:
         name = spec["name"]
         mod = spec["module"]
         out.setdefault(mod, [])
         sig = f"pub(crate) fn seg_{name}{spec.get('generics','')}({spec['params']}) -> {spec['ret']}"
         try:
+            if name in disabled:
+                raise ValueError("cut text does not compile against the declared live-in variables (source was restructured): " + disabled[name])
             src = open(os.path.join(scratch, spec["file"])).read()
             if spec.get("parts"):
                 texts, lo_, hi_ = [], 10**9, 0
@@ -344,6 +349,13 @@ def generate(scratch, hdir):
             out[mod].append(f"// ---- segment {name}: UNAVAILABLE ({e})\n#[allow(unused_variables, clippy::all)]\n{sig} {{\n    panic!(\"segment {name} could not be cut from the current source\")\n}}\n")
             info[name] = {"ok": False, "file": spec["file"], "func": spec["func"], "why": str(e)}
     for mod, parts in out.items():
+        # line ranges of the generated functions (for attributing compile errors)
+        line = 3
+        for spec_, part in zip([s for s in SEGMENTS if s["module"] == mod], parts):
+            n = part.count("\n") + 1
+            info[spec_["name"]]["gen_file"] = f"segs_{mod}.rs"
+            info[spec_["name"]]["gen_lines"] = [line, line + n - 1]
+            line += n
         with open(os.path.join(hdir, f"segs_{mod}.rs"), "w") as f:
             f.write("// GENERATED on every run by runner/segments.py from the current source text of the scratch copy.\n\n")
             f.write("\n".join(parts))
